@@ -327,4 +327,9 @@ def r5(ctx):
     ctx.check(len(cb) == 1 and norm(cb[0].value) == cn.params[2] and len(hello) == 1 and cb[0].lineno < hello[0].lineno, "C12.R5", cn, "connect() registers the callback, then sends the hello")
 
 
-RULES = [("C12.R1", r1), ("C12.R2", r2), ("C12.R3", r3), ("C12.R4", r4), ("C12.R5", r5)]
+def r_enum(ctx):
+    from .common import enum_identity
+    enum_identity(ctx, "C12.R6", ('connection', 'client', 'context', 'server'))
+
+
+RULES = [("C12.R1", r1), ("C12.R2", r2), ("C12.R3", r3), ("C12.R4", r4), ("C12.R5", r5), ("C12.R6", r_enum)]
